@@ -58,8 +58,40 @@ CLAIMED = {
          "held on everything observed: tens of thousands of graph pairs/triples of the same function satisfy idempotence, commutativity, associativity, upper bound and reflexivity; no monotonicity report over thousands of (instruction, pre/post) graphs; instruction locality and summary sizes are unchanged under worklist permutations.",
          "laws are checked with the analysis' own Merge/Matches/LessEqual; summarisation confined to the generated packages (the self-check retains all graphs)",
          "DESIGN.md §7 C15"),
+ "C02": ("runtime monitoring: chain programs with sanitizer/validator links executed natively with opaque validator outcomes; a raw marker reaching the sink without a prior positive validation is an obligation that the taint tool, configured with the sanitizer/validator specs, must report",
+         "held on the executions observed except for the listed known findings: 28 sanitizer/validator shapes (one-arm validation, bypass path, negated validator, negation stored in a variable, || short-circuit, err != nil fall-through, ignored result, validation in a callee / on a copy / of a struct field ...) alone, in every ordered pair and embedded in random chains, under all branch inputs x validator outcomes.",
+         "lenient oracle on purpose: validating any value that carries the marker, earlier in the same chain execution, waives the obligation; marker rewriting by the native sanitizer",
+         "DESIGN.md §7 C02"),
+ "C03": ("runtime monitoring: the C01 chain programs with the sinks configured as backtrace points; natively observed origins must occur in a reported trace of the sink argument; every reported trace is checked for shape on the live graph",
+         "held on the executions observed except for the listed known findings: every observed (source, sink) pair has a trace containing the source call, eager and on-demand; all reported traces end at the entry argument and are connected step by step.",
+         "same runtime assumptions as C01; trace connectivity accepts In()/Out() edges and the inter-procedural step kinds listed in DESIGN",
+         "DESIGN.md §7 C03"),
+ "C05": ("differential runtime monitoring of the tool: the same program is analysed under a base configuration and under each soundness-neutral option variant in one supervised child; reported (source, sink) position sets are compared",
+         "held on the programs analysed (generated chain batches and the repository's own multi-file taint test programs): equal sets under on-demand, four pkg-filters, report-*/coverage/log options; subset / size / non-emptiness under max-alarms 1, 2, 5.",
+         "no execution of the analysed program is needed: the statement compares the tool with itself",
+         "DESIGN.md §7 C05"),
+ "C06": ("runtime monitoring of the analyzer under schedule and map-order perturbation: fresh processes x in-process repetitions x GOMAXPROCS values x seeded yields at the parallel-worker hook; canonical result sets must be identical",
+         "held on the runs compared: identical (source,sink) sets, escape sets and backtrace (entry, origin) sets for generated programs (field-sensitive) and repository test programs; the number of distinct entry-point visiting orders actually seen is reported as evidence that iteration-order diversity was exercised.",
+         "every fresh process re-randomises map iteration; yields only at existing concurrency points",
+         "DESIGN.md §7 C06"),
+ "C07": ("runtime monitoring: crash monitor (supervised child per (program, analysis) with goroutine dump on watchdog) plus logical step counters at every fixpoint/traversal loop head, on a fixed hostile corpus, the generated workloads of the other checks and seeded random programs",
+         "termination is restated as bounded progress: no analysis variant (taint x4, backtrace x2, escape, reachability, defers on all functions, may-panic) panics or exits abnormally, and every loop-head counter stays below 200x the committed count of the pinned tree on the same program. Listed known findings: backtrace crashes on two programs.",
+         "an unbounded 'eventually returns' cannot be decided by a finite run; a wall-clock watchdog alone is inconclusive",
+         "DESIGN.md §7 C07"),
+ "C17": ("runtime monitoring of the analyzer's live data structure: an invariant monitor walks the inter-procedural graph through public accessors at quiescent points (after graph construction, after every entry point via a visitor wrapper, at return), eager and on-demand",
+         "held at every quiescent point observed except for the listed structural limitation (one In() record per source node when several tuple indices flow between the same two nodes): out<=>in edges with matching tuple index, call node<=>Callsites, closure node<=>ReferringMakeClosures, bound label->closure summary, global read/write location sets == access nodes of built summaries.",
+         "the monitor replays the driver sequence of taint.Analyze through public entry points; graphs are only read at quiescent points",
+         "DESIGN.md §7 C17"),
+ "C20": ("sanitizer: the Go race detector on a -race build of the real analysis driver with seeded yields at hook sites, plus monitors for goroutine leaks, report-file completeness at return and MapParallel against the sequential map (results, order, goroutine count)",
+         "held on the schedules observed: no race report over programs x option sets x log levels x {eager,on-demand} x GOMAXPROCS{2,16}; MapParallel equals the sequential map in input order for every length 0..40,100,1000 x workers -1..20 without leaking goroutines; no goroutine leak; summaries and flow report files complete when the analysis returns.",
+         "race-detector reports are sound; absence of reports is evidence for the interleavings that ran only; yields cannot create interleavings the program cannot have",
+         "DESIGN.md §7 C20"),
 }
-PENDING_REASON = "check not built yet at this commit (work in progress; see DESIGN.md §7 for the planned runtime monitor)"
+# checks that are built but whose clean-sweep validation on the unchanged tree is not finished are not claimed yet
+NOT_YET_VALIDATED = {"C02", "C03", "C05", "C06", "C07", "C17", "C20"}
+for k in NOT_YET_VALIDATED:
+    CLAIMED.pop(k, None)
+PENDING_REASON = "check is built (harness/checks) but its clean-sweep validation on the unchanged tree is not finished at this commit, so it is not claimed yet"
 
 hooks_commits = []
 try:
